@@ -63,16 +63,25 @@ Definition seg_band_closer (p a b : pt) (R : Z) : bool :=
   let L := dot d d in
   (0 <? t) && (t <? L) && (cross d v * cross d v <? R * L).
 
-(* polyline vs with one squared radius per segment (Rs); missing radii count as 0 = never closer *)
-Fixpoint poly_closer (band : bool) (p : pt) (vs : list pt) (Rs : list Z) : bool :=
+(* cheap exact pre-test with the radius r itself (r >= 0): p lies outside the bounding box of the
+   segment grown by r, so no point of the segment is closer than r (box_far_correct below) *)
+Definition box_far (p a b : pt) (r : Z) : bool :=
+  (fst p + r <=? Z.min (fst a) (fst b)) || (Z.max (fst a) (fst b) + r <=? fst p) ||
+  (snd p + r <=? Z.min (snd a) (snd b)) || (Z.max (snd a) (snd b) + r <=? snd p).
+
+(* "closer than r to the segment" / "... and with its foot strictly inside the segment" *)
+Definition seg_near (band : bool) (p a b : pt) (r : Z) : bool :=
+  if box_far p a b r then false
+  else if band then seg_band_closer p a b (r * r) else seg_closer_than p a b (r * r).
+
+(* polyline vs with one radius per segment (rs); missing radii count as 0 = never closer *)
+Fixpoint poly_closer (band : bool) (p : pt) (vs : list pt) (rs : list Z) : bool :=
   match vs with
   | [] => false
   | a :: rest =>
       match rest with
       | [] => false
-      | b :: _ =>
-          (if band then seg_band_closer p a b (hd 0 Rs) else seg_closer_than p a b (hd 0 Rs))
-          || poly_closer band p rest (tl Rs)
+      | b :: _ => seg_near band p a b (hd 0 rs) || poly_closer band p rest (tl rs)
       end
   end.
 
@@ -83,35 +92,41 @@ Definition plane := (pt * pt * Z)%type.
 Definition behind (p : pt) (pl : plane) : bool :=
   let '(e, t, m) := pl in dot (vsub p e) t <=? - m.
 
-(* "closer than hw - tol to the element's centre line" (Rcov = (hw - tol)^2 per segment) and not
+(* "closer than hw - tol to the element's centre line" (rcov = hw - tol per segment) and not
    beyond an end plane of a non-round end.  band = true restricts to the open bands of the
    segments (joins other than round do not promise the disc around a corner). *)
-Definition must_cover (band : bool) (p : pt) (centre : list pt) (Rcov : list Z) (planes : list plane) : bool :=
-  poly_closer band p centre Rcov && forallb (behind p) planes.
+Definition must_cover (band : bool) (p : pt) (centre : list pt) (rcov : list Z) (planes : list plane) : bool :=
+  poly_closer band p centre rcov && forallb (behind p) planes.
 
-(* "farther than reach.hw + tol from the centre line extended by the end caps" *)
-Definition must_not_cover (p : pt) (centre_ext : list pt) (Rfar : list Z) : bool :=
-  negb (poly_closer false p centre_ext Rfar).
+(* p is beyond the plane by the margin when (p - e).t >= m *)
+Definition beyond (p : pt) (pl : plane) : bool :=
+  let '(e, t, m) := pl in m <=? dot (vsub p e) t.
 
-(* 0 = consistent (or not classified), 1 = must be covered but winding number 0,
-   2 = must not be covered but winding number <> 0 *)
-Definition check_point (band : bool) (outline centre centre_ext : list pt) (Rcov Rfar : list Z)
-           (planes : list plane) (p : pt) : Z :=
-  let w := wn outline p in
-  if must_cover band p centre Rcov planes && (w =? 0) then 1
-  else if must_not_cover p centre_ext Rfar && negb (w =? 0) then 2
-  else 0.
+(* a straight cap (flush / half-width / extended end): its plane, and the rest of the extended centre
+   line once the pieces next to that end are taken away, with the radii of that rest *)
+Definition cap := (plane * list pt * list Z)%type.
 
-(* first offending sample: (index, code) *)
-Fixpoint check_points (band : bool) (outline centre centre_ext : list pt) (Rcov Rfar : list Z)
-         (planes : list plane) (ps : list pt) (i : Z) : option (Z * Z) :=
-  match ps with
-  | [] => None
-  | p :: tl =>
-      let c := check_point band outline centre centre_ext Rcov Rfar planes p in
-      if c =? 0 then check_points band outline centre centre_ext Rcov Rfar planes tl (i + 1)
-      else Some (i, c)
-  end.
+(* "farther than reach.hw + tol from the centre line extended by the end caps", or beyond the
+   plane of a straight cap and farther than that from everything but the end piece itself *)
+Definition must_not_cover (p : pt) (centre_ext : list pt) (rfar : list Z) (caps : list cap) : bool :=
+  negb (poly_closer false p centre_ext rfar) ||
+  existsb (fun c : cap => let '(pl, rest, rrest) := c in beyond p pl && negb (poly_closer false p rest rrest)) caps.
+
+(* 1 = must be covered, 2 = must not be covered, 0 = in the guard band: no claim *)
+Definition classify (band : bool) (centre centre_ext : list pt) (rcov rfar : list Z)
+           (planes : list plane) (caps : list cap) (p : pt) : Z :=
+  if must_cover band p centre rcov planes then 1
+  else if must_not_cover p centre_ext rfar caps then 2 else 0.
+
+(* 0 = consistent, 1 = must be covered but winding number 0, 2 = must not be covered but
+   winding number <> 0 *)
+Definition verdict (class w : Z) : Z :=
+  if (class =? 1) && (w =? 0) then 1 else if (class =? 2) && negb (w =? 0) then 2 else 0.
+
+Definition check_point (band : bool) (outline centre centre_ext : list pt) (rcov rfar : list Z)
+           (planes : list plane) (caps : list cap) (p : pt) : Z :=
+  let c := classify band centre centre_ext rcov rfar planes caps p in
+  if c =? 0 then 0 else verdict c (wn outline p).
 
 (* ================================================================== lemmas *)
 
@@ -221,26 +236,72 @@ Proof.
   destruct (Z.leb_spec (dot (vsub b a) (vsub b a)) (dot (vsub p a) (vsub b a))); [lia|]. exact H3.
 Qed.
 
-(* polyline: true iff one of the consecutive segments answers true (radii taken in order) *)
-Lemma poly_closer_exists band p vs Rs :
-  poly_closer band p vs Rs = true <->
-  exists i a b, nth_error vs i = Some a /\ nth_error vs (S i) = Some b /\
-                (if band then seg_band_closer p a b (nth i Rs 0) else seg_closer_than p a b (nth i Rs 0)) = true.
+(* the bounding-box pre-test never discards a segment that is closer than r *)
+Lemma box_far_correct p a b r :
+  0 <= r -> box_far p a b r = true -> seg_closer_than p a b (r * r) = false.
 Proof.
-  revert Rs. induction vs as [|a rest IH]; intros Rs.
+  intros Hr H. destruct (seg_closer_than p a b (r * r)) eqn:E; [|reflexivity]. exfalso.
+  apply seg_closer_than_sound in E as (m & n & Hn & Hm & Hd).
+  unfold box_far in H. unfold dist2_scaled in Hd.
+  destruct p as [px py], a as [ax ay], b as [bx by_]; simpl in *.
+  assert (SQ : forall e, n * r <= e \/ e <= - (n * r) -> r * r * n * n <= e * e).
+  { intros e [He|He]; nia. }
+  assert (NR : 0 <= n * r) by nia.
+  assert (Y2 : forall e : Z, 0 <= e * e) by (intros; apply Z.square_nonneg).
+  repeat (apply orb_true_iff in H as [H|H]); apply Z.leb_le in H.
+  - (* px + r <= min ax bx *)
+    assert (K : n * (px - ax) - m * (bx - ax) <= - (n * r)).
+    { assert (px + r <= ax) by lia. assert (px + r <= bx) by lia.
+      assert ((n - m) * (px + r) <= (n - m) * ax) by (apply Z.mul_le_mono_nonneg_l; lia).
+      assert (m * (px + r) <= m * bx) by (apply Z.mul_le_mono_nonneg_l; lia). lia. }
+    pose proof (SQ _ (or_intror K)). pose proof (Y2 (n * (py - ay) - m * (by_ - ay))). lia.
+  - assert (K : n * r <= n * (px - ax) - m * (bx - ax)).
+    { assert (ax + r <= px) by lia. assert (bx + r <= px) by lia.
+      assert ((n - m) * (ax + r) <= (n - m) * px) by (apply Z.mul_le_mono_nonneg_l; lia).
+      assert (m * (bx + r) <= m * px) by (apply Z.mul_le_mono_nonneg_l; lia). lia. }
+    pose proof (SQ _ (or_introl K)). pose proof (Y2 (n * (py - ay) - m * (by_ - ay))). lia.
+  - assert (K : n * (py - ay) - m * (by_ - ay) <= - (n * r)).
+    { assert (py + r <= ay) by lia. assert (py + r <= by_) by lia.
+      assert ((n - m) * (py + r) <= (n - m) * ay) by (apply Z.mul_le_mono_nonneg_l; lia).
+      assert (m * (py + r) <= m * by_) by (apply Z.mul_le_mono_nonneg_l; lia). lia. }
+    pose proof (SQ _ (or_intror K)). pose proof (Y2 (n * (px - ax) - m * (bx - ax))). lia.
+  - assert (K : n * r <= n * (py - ay) - m * (by_ - ay)).
+    { assert (ay + r <= py) by lia. assert (by_ + r <= py) by lia.
+      assert ((n - m) * (ay + r) <= (n - m) * py) by (apply Z.mul_le_mono_nonneg_l; lia).
+      assert (m * (by_ + r) <= m * py) by (apply Z.mul_le_mono_nonneg_l; lia). lia. }
+    pose proof (SQ _ (or_introl K)). pose proof (Y2 (n * (px - ax) - m * (bx - ax))). lia.
+Qed.
+
+(* so seg_near is the squared-distance test at radius r *)
+Theorem seg_near_correct_lemma band p a b r :
+  0 <= r ->
+  seg_near band p a b r = (if band then seg_band_closer p a b (r * r) else seg_closer_than p a b (r * r)).
+Proof.
+  intros Hr. unfold seg_near. destruct (box_far p a b r) eqn:B; [|reflexivity].
+  pose proof (box_far_correct p a b r Hr B) as F. destruct band; [|now rewrite F].
+  destruct (seg_band_closer p a b (r * r)) eqn:E; [|reflexivity].
+  apply seg_band_closer_implies in E. congruence.
+Qed.
+
+(* polyline: true iff one of the consecutive segments answers true (radii taken in order) *)
+Lemma poly_closer_exists band p vs rs :
+  poly_closer band p vs rs = true <->
+  exists i a b, nth_error vs i = Some a /\ nth_error vs (S i) = Some b /\
+                seg_near band p a b (nth i rs 0) = true.
+Proof.
+  revert rs. induction vs as [|a rest IH]; intros rs.
   - simpl. split; [discriminate|]. intros (i & a & b & H & _). destruct i; discriminate.
   - destruct rest as [|b rest'].
     + simpl. split; [discriminate|]. intros (i & x & y & _ & H & _). destruct i; simpl in H; [discriminate|destruct i; discriminate].
-    + change (poly_closer band p (a :: b :: rest') Rs)
-        with ((if band then seg_band_closer p a b (hd 0 Rs) else seg_closer_than p a b (hd 0 Rs))
-              || poly_closer band p (b :: rest') (tl Rs)).
+    + change (poly_closer band p (a :: b :: rest') rs)
+        with (seg_near band p a b (hd 0 rs) || poly_closer band p (b :: rest') (tl rs)).
       rewrite orb_true_iff, IH. split.
       * intros [H|(i & x & y & H1 & H2 & H3)].
-        -- exists 0%nat, a, b. repeat split. destruct Rs; exact H.
-        -- exists (S i), x, y. repeat split; auto. destruct Rs; simpl in *; [destruct i; exact H3|exact H3].
+        -- exists 0%nat, a, b. repeat split. destruct rs; exact H.
+        -- exists (S i), x, y. repeat split; auto. destruct rs; simpl in *; [destruct i; exact H3|exact H3].
       * intros (i & x & y & H1 & H2 & H3). destruct i.
-        -- left. simpl in H1, H2. inversion H1; inversion H2; subst. destruct Rs; exact H3.
-        -- right. exists i, x, y. repeat split; auto. destruct Rs; simpl in *; [destruct i; exact H3|exact H3].
+        -- left. simpl in H1, H2. inversion H1; inversion H2; subst. destruct rs; exact H3.
+        -- right. exists i, x, y. repeat split; auto. destruct rs; simpl in *; [destruct i; exact H3|exact H3].
 Qed.
 
 (* winding number: translation invariance (all that the harness relies on besides exactness) *)
@@ -300,6 +361,7 @@ Example seg_closer_example : seg_closer_than (5, 3) (0, 0) (10, 0) 10 = true /\ 
 Proof. split; reflexivity. Qed.
 
 Print Assumptions seg_closer_than_correct_lemma.
+Print Assumptions seg_near_correct_lemma.
 Print Assumptions poly_closer_exists.
 Print Assumptions wn_translate_lemma.
 Print Assumptions wn_rectangle_lemma.
